@@ -21,6 +21,23 @@ def hasOpenLiteralMembers : List (Str × JVal) → Bool
   | (_, v) :: rest => hasOpenLiteral v || hasOpenLiteralMembers rest
 end
 
+mutual
+/-- does the value contain a string spelt with a doubled `0x0x` prefix?  `ethaddr` reads `0x0x<40 hex>` as an address
+(DESIGN 13.4 n3: the statements are silent on that spelling), so a document that is refused by the spec only because of
+such a string is left to the model correspondence. -/
+def hasDoubledPrefix : JVal → Bool
+  | .str ('0' :: 'x' :: '0' :: 'x' :: _) => true
+  | .arr l => hasDoubledPrefixList l
+  | .obj kv => hasDoubledPrefixMembers kv
+  | _ => false
+def hasDoubledPrefixList : List JVal → Bool
+  | [] => false
+  | v :: vs => hasDoubledPrefix v || hasDoubledPrefixList vs
+def hasDoubledPrefixMembers : List (Str × JVal) → Bool
+  | [] => false
+  | (_, v) :: rest => hasDoubledPrefix v || hasDoubledPrefixMembers rest
+end
+
 def judgeTdHash (input : Bytes) (resp : String) : Verdict :=
   match Json.parseRaw input with
   | none => .skip
@@ -33,7 +50,9 @@ def judgeTdHash (input : Bytes) (resp : String) : Verdict :=
         if resp == s!"ok {hx ds} {hx mh} {hx dg}" then .holds
         else if resp == "err" && (hasOpenLiteralMembers b.domain || hasOpenLiteralMembers b.message) then .holds
         else .fails "digests differ from EIP-712 hashStruct/encodeType of the document"
-      | none => expect (resp == "err") "document does not conform to its declared types (or domain type malformed / type undefined): must be refused"
+      | none =>
+        if resp != "err" && (hasDoubledPrefixMembers b.domain || hasDoubledPrefixMembers b.message) then .skip
+        else expect (resp == "err") "document does not conform to its declared types (or domain type malformed / type undefined): must be refused"
     | _ => .skip
 
 /-- the same judgement for the command-line routes, which print one digest (`--message-hash`:
@@ -51,7 +70,9 @@ def judgeCliHashTd (input : Bytes) (messageHash : Bool) (resp : String) : Verdic
         if resp == "ok " ++ hx want.toUTF8.toList then .holds
         else if resp == "err" && (hasOpenLiteralMembers b.domain || hasOpenLiteralMembers b.message) then .holds
         else .fails "printed digest differs from the EIP-712 value for this document"
-      | none => expect (resp == "err") "ill-formed domain type / non-conforming document: every command must refuse it before hashing anything"
+      | none =>
+        if resp != "err" && (hasDoubledPrefixMembers b.domain || hasDoubledPrefixMembers b.message) then .skip
+        else expect (resp == "err") "ill-formed domain type / non-conforming document: every command must refuse it before hashing anything"
     | _ => .skip
 
 def judgeEncodeType (typesJson : Bytes) (name : Str) (resp : String) : Verdict :=
